@@ -217,7 +217,11 @@ func (c *Cache) addJarToCache(sessionID string, jar http.CookieJar) {
 
 // cachedCookieJar returns the CookieJar mapped to the sessionID
 func (c *Cache) cachedCookieJar(sessionID string) (jar http.CookieJar, err error) {
+	// Looking up an entry also updates the LRU's recency list, so
+	// lookups have to hold the lock just like insertions do.
+	c.mu.Lock()
 	val, ok := c.cache.Get(sessionID)
+	c.mu.Unlock()
 	if !ok {
 		options := cookiejar.Options{
 			PublicSuffixList: publicsuffix.List,
